@@ -49,7 +49,7 @@ def run(ctx):
     report(ctx, cases, "C05", "c05")
 
 
-def report(ctx, cases, prop, tag, finding_of=None):
+def report(ctx, cases, prop, tag, finding_of=None, extra_cov=None):
     bad = semlib.judge(ctx, cases, tag)
     crashed = [i for i, c in enumerate(cases) if c["res"].get("panic") or c["res"].get("hang")]
     sigs = {}
@@ -82,6 +82,8 @@ def report(ctx, cases, prop, tag, finding_of=None):
                     "sorts, joins or groups",
                samples=[dict(sql=c["res"].get("sql"), db=c["db"], result_rows=c["res"].get("rows")) for c in cases[:3]],
                rejected_by_tlc=len(bad), engine_errors=sum(1 for c in cases if c["res"].get("err")), panics=len(crashed))
+    if extra_cov:
+        cov.update(extra_cov)
     vlib.write_evidence(ctx, "exploration", cov, assumptions=[
         "TLC evaluates the oracle (SqlSem.tla ResultOK); the Go side only renders SQL text and serialises results",
         "SQL rendering in harness/cmd/sem (8 styles: keyword case, optional AS/ASC/INNER, spacing, LIMIT/OFFSET order)"])
